@@ -967,3 +967,50 @@ func paramsIndexOf(v ssa.Value) (int64, bool) {
 	}
 	return 0, false
 }
+
+// R19NumberExact — numeric literals become exact numbers.
+func R19NumberExact(c *Ctx) {
+	const rule = "R19-number-exact"
+	c.R.Rule(rule, "the native and the JSON parser turn the text of a number token into a value only through cty.ParseNumberVal (arbitrary precision, the same routine the string-to-number conversion uses): no function of hclsyntax or yaotl/json calls strconv.ParseFloat/ParseInt/Atoi on token text or builds a number with cty.NumberFloatVal/NumberIntVal from it — a float64 detour changes integers above 2^53 and makes a quoted and an unquoted number load differently", 2)
+	n := 0
+	exact := 0
+	for _, fn := range c.P.ModuleFuncs(func(p string) bool { return p == PkgYaotl+"/hclsyntax" || p == PkgYaotl+"/json" }) {
+		EachCall(fn, func(call ssa.CallInstruction) {
+			name := CalleeName(call)
+			switch name {
+			case "github.com/zclconf/go-cty/cty.ParseNumberVal":
+				n++
+				exact++
+				c.R.Ok(rule, FuncShort(fn), "cty.ParseNumberVal(<token text>)", c.pos(call.Pos()), "exact parse", true)
+			case "strconv.ParseFloat", "github.com/zclconf/go-cty/cty.NumberFloatVal", "(*math/big.Float).Float64":
+				// on token text?
+				fromTok := false
+				for _, a := range call.Common().Args {
+					if DerivesFrom(a, func(v ssa.Value) bool {
+						return IsFieldLoad("", "Bytes")(v)
+					}) {
+						fromTok = true
+					}
+				}
+				// NumberFloatVal of a ParseFloat result
+				if name == "github.com/zclconf/go-cty/cty.NumberFloatVal" {
+					for _, a := range call.Common().Args {
+						if DerivesFrom(a, func(v ssa.Value) bool {
+							cl, ok := v.(*ssa.Call)
+							return ok && CalleeName(cl) == "strconv.ParseFloat"
+						}) {
+							fromTok = true
+						}
+					}
+				}
+				if fromTok {
+					n++
+					c.R.Bad(rule, FuncShort(fn), shortCallee(name)+"(<token text>)", c.pos(call.Pos()), "a number token is converted through float64: integers beyond 2^53 are rounded (or rejected), while the same digits in a quoted string still load exactly")
+				}
+			}
+		})
+	}
+	if exact < 2 {
+		c.R.Anchor(rule, "the cty.ParseNumberVal calls of hclsyntax.numberLitValue and json.parseNumber")
+	}
+}
